@@ -11,7 +11,11 @@ OUT = "out"
 TPL_DIR = "templates"
 TPL_NAME = "tpl.tex"
 EDGES = [0, 1, 2]
-DATA = {"A": [1, 2], "B": [3, 4]}
+# A, B: one-dimensional histograms on EDGES with these bin contents; E: a plot that has become empty (a
+# graph without points) - its CSV text is the empty string, a legal text like any other
+DATA = {"A": [1, 2], "B": [3, 4], "E": None}
+# the data letters a history job ranges over unless it names its own ("alphabet")
+DEFAULT_LETTERS = "AB"
 # the second template differs from the first by the smallest change a text can have: one more newline at
 # its end (jinja drops one trailing newline of a template, so the source carries two)
 LABELS = ("T1", "T1+nl")
@@ -27,6 +31,10 @@ def csv_text(letter):
     """What a one-dimensional histogram on EDGES with bin contents DATA[letter] looks like as CSV
     (ToCSV docstring: one "x,content" row per bin, the last bin repeated at the last edge)."""
     bins = DATA[letter]
+    if bins is None:
+        # ToCSV docstring: rows are joined by newlines and the text starts from the (by default empty)
+        # header - no rows, no text
+        return ""
     rows = ["%f,%f" % (float(EDGES[i]), float(bins[i])) for i in range(len(bins))]
     rows.append("%f,%f" % (float(EDGES[-1]), float(bins[-1])))
     return "\n".join(rows)
